@@ -77,7 +77,7 @@ func (ev *evalCtx) isParam(n string) bool {
 			return true
 		}
 	}
-	return n == "result" || n == "self"
+	return n == "result" || n == "self" || n == "returning"
 }
 
 func (ev *evalCtx) lookupName(n string) (Val, bool) {
@@ -92,6 +92,14 @@ func (ev *evalCtx) lookupName(n string) (Val, bool) {
 	fr := ev.fr
 	if n == "result" {
 		return fr.results, true
+	}
+	if n == "returning" {
+		for f := fr; f != nil; f = f.parent {
+			if f.pending != nil {
+				return *f.pending, true
+			}
+		}
+		return Val{}, false
 	}
 	if ev.inOld {
 		for i, p := range fr.fn.Params {
